@@ -18,7 +18,7 @@
 (*   Quants   set of <<op, n, m, g>> quantifier calls                      *)
 (*   Names    set of capture names used                                    *)
 (***************************************************************************)
-EXTENDS PregexEval, PregexSem, RunCfg
+EXTENDS PregexEval, PregexSem, PregexImpl, RunCfg
 
 RECURSIVE IvOfSet(_)
 IvOfSet(S) ==
@@ -232,6 +232,9 @@ SemTab(v) == LET ts == TextsUpTo(SemLen) IN [k \in 1..Len(ts) |-> << ts[k], Find
 
 Expect(o, tg) ==
   [ok |-> o.ok, ex |-> o.ex,
+   \* layer I (drift measurement only): the text and type the library's own design produces for this value
+   emit |-> IF o.ok /\ ~HasClass(o.v) THEN Emit(o.v) ELSE <<-1>>,
+   ty |-> IF o.ok THEN TypeOf(o.v) ELSE "",
    semtab |-> IF SemLen > 0 /\ o.ok /\ Calibratable(o.v) THEN SemTab(o.v) ELSE <<>>,
    ref |-> IF o.ok THEN Ref(o.v) ELSE "",
    caps |-> IF o.ok THEN CapList(o.v) ELSE <<>>,
@@ -272,6 +275,8 @@ RepeatRule ==
 \* C10: every accepted lookbehind has a fixed width
 LookbehindRule ==
   (res.ok /\ cur.v.k = "look" /\ cur.v.dir # "ahead" /\ WKnown(cur.v.x)) => FixedWidth(cur.v.x)
+\* layer I refinement theorem: the grouping table never lets an operator bind to a fragment of an operand
+PrecSafeInv == res.ok => PrecSafe(cur.v)
 \* C05, single step: an empty later operand is neutral (action property)
 EmptyNeutralStep ==
   [][ ("emptyarg" \in res'.tags /\ res'.ok) =>
